@@ -868,6 +868,11 @@ class TorControlProtocol(LineOnlyReceiver):
             if cookiefile_match:
                 cookiefile = cookiefile_match.group(1)
                 cookiefile = unescape_quoted_string(cookiefile)
+                # octal escapes stand for the bytes of the file name
+                try:
+                    cookiefile = os.fsdecode(cookiefile.encode('latin-1'))
+                except UnicodeEncodeError:
+                    pass
                 try:
                     self._read_cookie(cookiefile)
                     cookie_auth = True
